@@ -1124,7 +1124,8 @@ impl Dhcp {
     }
 
     pub fn get_broadcast_flag(&self) -> bool {
-        self.flags & 0b1000_0000 != 0
+        /* RFC2131 figure 2: B is the most significant bit of the 16 bit flags field. */
+        self.flags & 0b1000_0000_0000_0000 != 0
     }
 }
 
